@@ -71,6 +71,19 @@ void log_destination_vtable_register(const struct log_destination_vtable *orig)
     set_insert(&log_vtables, sn);
 }
 
+/** Orders log destinations by name.
+ *
+ * Destination names embed file system paths ("file:<path>"), which are
+ * case-sensitive, so "file:a.log" and "file:A.log" must be distinct
+ * destinations.  (set_compare_charp() folds case.)  Like that function,
+ * this relies on the name being the first member of the element.
+ */
+static int log_destination_cmp(const void *a_, const void *b_)
+{
+    char * const *a = a_, * const *b = b_;
+    return strcmp(*a, *b);
+}
+
 static void log_destination_cleanup(void *data)
 {
     struct log_destination *ld = data;
@@ -528,7 +541,7 @@ static CONF_UPDATE_HOOK(log_rescan_type)
 static void log_init(void)
 {
     reg_exit_func(log_cleanup);
-    log_destinations.compare = set_compare_charp;
+    log_destinations.compare = log_destination_cmp;
     log_destinations.cleanup = log_destination_cleanup;
     log_vtables.compare = set_compare_charp;
     log_types.compare = set_compare_charp;
